@@ -37,7 +37,11 @@ RULE_ADDED = (
               'ress, best block found ...) and resets. '
               ' '
               'Round 13: brother lists holding two headers whose hashes share their first four '
-              'bytes (committed fixture found by a birthday search). ')
+              'bytes (committed fixture found by a birthday search). '
+              ' '
+              'Round 15: brother lists with a repeated entry; headers around and beyond 64 KiB '
+              '(65535 goes through; beyond it no success and no metadata message for that heade'
+              'r). ')
 RULE = RULE + " " + RULE_ADDED.strip()
 ASSUMPTIONS = [
     "simulated device + fake transports trusted; the device follows framing only",
@@ -340,12 +344,80 @@ def run_case(acc, cseed, spec, stack_holder):
                 stack_holder.pop(hk, None)
 
 
+def oversize_case(acc, cseed, huge=True):
+    """a header (block, ancestor block or brother) one of whose fields is so long that the
+    length of its part without the merge-mining fields does not fit the two bytes the
+    metadata message has for it (65536, 2^17, 1 MiB, 3 MiB ...): nothing the device could be
+    told about it is true, so whatever happens the client is not told "done"; a header just
+    below the limit (65535) goes through like any other"""
+    from ..stack import Stack, signer_device
+    rng = random.Random(cseed)
+    case = {"oversize": True, "seed": cseed}
+    target = rng.choice([65535, 65536, 65536, 2 ** 17, 2 ** 20, 2 ** 20 + 5] +
+                        ([3 * 2 ** 20, 2 ** 24 - 1] if huge else []))
+    case["huge"] = huge
+    which = rng.choice(["block", "block", "ancestor", "brother"])
+    nf = rng.choice([19, 20])
+    big = gb.gen_block(rng, nf, tiny=True, small_tail=True)
+    fields = list(big["fields"])
+    fields[12] = bytes(target)
+    over = gb.rlp_payload_len(fields[:-3]) - target
+    fields[12] = rng.randbytes(max(1, target - over))     # (payload = target, or close)
+    big = gb._finish(fields, nf, big["cb_hash"])
+    small = gb.gen_block(rng, 19, tiny=True)
+    if which == "ancestor":
+        req = {"command": "updateAncestorBlock", "version": 5,
+               "blocks": [small["raw"].hex(), big["raw"].hex()]}
+    elif which == "block":
+        req = {"command": "advanceBlockchain", "version": 5,
+               "blocks": [small["raw"].hex(), big["raw"].hex()], "brothers": [[], []]}
+    else:
+        req = {"command": "advanceBlockchain", "version": 5,
+               "blocks": [small["raw"].hex()], "brothers": [[big["raw"].hex()]]}
+    plat = rng.choice(["tcp", "sgx", "ledger"]) if target < 2 ** 18 else rng.choice(["tcp", "sgx"])
+    dev = signer_device(platform=plat)
+    if plat == "sgx":
+        dev.unlocked = True
+    dev.chunk = ChunkPolicy("const", 255, random.Random(1))
+    dev.adv_policy = {}
+    with Stack(dev) as s:
+        s.initialize()
+        mark = len(s.bus.events)
+        reply, exc, _ = s.request(req)
+        from .faultlib import role_of
+        roles = [role_of(e["apdu"]) for e in s.bus.apdus(mark)]
+    acc.evaluations += 1
+    acc.count("requests_with_a_header_around_or_beyond_64_KiB")
+    metas = {"block": roles.count("adv.meta"), "ancestor": roles.count("upd.meta"),
+             "brother": roles.count("adv.bmeta")}[which]
+    if big["mm_payload_len"] > 0xffff and metas > (0 if which == "brother" else 1):
+        return acc.violation("metadata-sent-for-a-header-whose-length-does-not-fit-it",
+                             {"payload": big["mm_payload_len"], "which": which, "reply": reply,
+                              "roles": roles[:12]}, case)
+    fits = big["mm_payload_len"] <= 0xffff
+    if exc is not None or not isinstance(reply, dict) or type(reply.get("errorcode")) is not int:
+        return acc.violation("oversize-header:no-verdict", {"reply": reply, "exc": repr(exc),
+                                                            "payload": big["mm_payload_len"],
+                                                            "which": which}, case)
+    if not fits and reply["errorcode"] in (0, 1):
+        acc.violation("success-reported-for-a-header-whose-length-the-device-cannot-be-told",
+                      {"payload": big["mm_payload_len"], "which": which, "reply": reply,
+                       "platform": plat}, case)
+    elif fits and reply["errorcode"] != 0:
+        acc.violation("header-of-64-KiB-minus-one-refused", {"payload": big["mm_payload_len"],
+                                                             "which": which, "reply": reply},
+                      case)
+
+
 def run_shard(spec, acc):
     env.setup()
     rng = random.Random(spec["seed"])
     holder = {}
     for i in range(spec["n"]):
         run_case(acc, rng.getrandbits(48), spec, holder)
+        if i % 24 == 5:
+            # (quick: one a shard, up to 1 MiB; thorough: 20 a shard, up to 16 MiB)
+            oversize_case(acc, rng.getrandbits(48), huge=spec["n"] > 100)
     for k, v in holder.items():
         if k != "pool":
             v[0].__exit__(None, None, None)
@@ -353,4 +425,6 @@ def run_shard(spec, acc):
 
 def replay(case, acc):
     env.setup()
+    if case.get("oversize"):
+        return oversize_case(acc, case["seed"], case.get("huge", True))
     run_case(acc, case["seed"], case["spec"], {})
